@@ -169,7 +169,7 @@ Ltac inst_eff_tac :=
     | match ?b with _ => _ end => destruct b eqn:?
     | if ?b then _ else _ => destruct b eqn:?
     end end);
-  sup_simpl; cbn -[get Assoc.set N.eqb];
+  sup_simpl; cbn -[get Assoc.set N.eqb]; sup_simpl; cbn -[get Assoc.set N.eqb];
   repeat match goal with
   | |- context[N.eqb ?a jj] => destruct (N.eqb_spec a jj); [subst|]
   end;
@@ -271,9 +271,9 @@ Ltac destr_state :=
         end end end).
 
 Ltac scal_tac :=
-  unfold scal_eff; destr_state; sup_simpl; cbn -[get Assoc.set N.eqb get_thread];
+  unfold scal_eff; destr_state; sup_simpl; cbn -[get Assoc.set N.eqb get_thread]; sup_simpl; cbn -[get Assoc.set N.eqb get_thread];
   repeat split; try reflexivity;
-  try (intros th' Hth'; unfold get_thread; sup_simpl; cbn -[get Assoc.set N.eqb]; rewrite ?(proj2 (N.eqb_neq _ _) (not_eq_sym Hth')); reflexivity).
+  try (intros th' Hth'; unfold get_thread; sup_simpl; cbn -[get Assoc.set N.eqb]; sup_simpl; cbn -[get Assoc.set N.eqb]; rewrite ?(proj2 (N.eqb_neq _ _) (not_eq_sym Hth')); reflexivity).
 
 Lemma own_scal s th e s' : step_own s th e = Some s' -> scal_eff s th e s'.
 Proof. intros H. destruct e; kind_cases H; scal_tac. 
